@@ -1,1 +1,142 @@
 // Kani contract harnesses for /repo/parquet/src/arrow/arrow_reader/selection/boolean.rs (child module: sees private items via super::)
+use super::*;
+#[path = "/verif/kani/support/spec.rs"]
+mod spec;
+#[allow(unused_imports)]
+use spec::*;
+
+// Contract (C06/C19): set_bit_run(buf, start, len) sets exactly the bits [start, start+len) of the little-endian bitmap
+// and changes nothing else (frame), for every start/len with start + len <= 8*len(buf); symbolic positions on a raw
+// 4-byte slice (no allocation).
+// @unit name=set_bit_run_contract props=C06 kind=bounded bound=4_byte_bitmap_any_start_len fns=set_bit_run timeout=300
+#[kani::proof]
+#[kani::unwind(6)]
+fn set_bit_run_contract() {
+    let old: [u8; 4] = kani::any();
+    let mut buf = old;
+    let (start, len): (usize, usize) = (kani::any(), kani::any());
+    kani::assume(start <= 32 && len <= 32 - start);
+    set_bit_run(&mut buf, start, len);
+    let i: usize = kani::any(); kani::assume(i < 32);
+    assert!(bit(&buf, i) == (bit(&old, i) || (i >= start && i < start + len)));
+    kani::cover!(len == 0); kani::cover!(start % 8 != 0 && (start + len) / 8 > start / 8 + 1); kani::cover!(len > 1 && start / 8 == (start + len - 1) / 8);
+}
+
+// Contract (C06): boolean_mask_from_selectors(runs) is the bitmap of the view: len = total(runs) and bit p is set iff
+// position p is selected. Two runs of symbolic lengths <= 12 each.
+// @unit name=boolean_mask_from_selectors_2runs props=C06 kind=bounded bound=2_runs_each_<=12_rows fns=boolean_mask_from_selectors,set_bit_run timeout=600 mem=4
+#[kani::proof]
+#[kani::unwind(6)]
+fn boolean_mask_from_selectors_2runs() {
+    let (c0, c1): (usize, usize) = (kani::any(), kani::any());
+    kani::assume(c0 <= 12 && c1 <= 12);
+    let runs = [RowSelector { row_count: c0, skip: kani::any() }, RowSelector { row_count: c1, skip: kani::any() }];
+    let m = boolean_mask_from_selectors(&runs);
+    assert!(m.len() == c0 + c1 && m.offset() == 0);
+    let p: usize = kani::any(); kani::assume(p < c0 + c1);
+    let expect = if p < c0 { !runs[0].skip } else { !runs[1].skip };
+    assert!(m.value(p) == expect);
+    kani::cover!(c0 + c1 == 24 && expect); kani::cover!(c0 == 0 && c1 == 9); kani::cover!(!expect);
+}
+
+fn mask_of<const B: usize>(bytes: [u8; B], offset: usize, len: usize) -> BooleanBuffer {
+    BooleanBuffer::new(Buffer::from(bytes.to_vec()), offset, len)
+}
+
+// Contract (C06): split_off_mask(mask, n) = (head, tail): len(head) = min(n, len), len(head) + len(tail) = len, and
+// head[i] = mask[i], tail[i] = mask[len(head) + i]. trim_mask(mask): None <=> mask is empty or its last bit is set;
+// Some(t) <=> t is the prefix of mask ending at its last set bit (empty if no bit is set): no selected position lost.
+macro_rules! split_trim_mask_unit {
+    ($name:ident, $off:expr, $len:expr) => {
+        #[kani::proof]
+        #[kani::unwind(20)]
+        fn $name() {
+            let m = mask_of::<4>(kani::any(), $off, $len);
+            let n: usize = kani::any();
+            let (head, tail) = split_off_mask(m.clone(), n);
+            let hl = if n < $len { n } else { $len };
+            assert!(head.len() == hl && tail.len() == $len - hl);
+            let i: usize = kani::any(); kani::assume(i < $len);
+            if i < hl { assert!(head.value(i) == m.value(i)); } else { assert!(tail.value(i - hl) == m.value(i)); }
+            kani::cover!(n == 0); kani::cover!(n > $len); kani::cover!(n > 0 && n < $len);
+            // trim
+            let mut last: Option<usize> = None; let mut k = 0;
+            while k < $len { if m.value(k) { last = Some(k); } k += 1; }
+            match trim_mask(&m) {
+                None => assert!($len == 0 || m.value($len - 1)),
+                Some(t) => {
+                    assert!($len > 0 && !m.value($len - 1));
+                    assert!(t.len() == match last { Some(l) => l + 1, None => 0 });
+                    if i < t.len() { assert!(t.value(i) == m.value(i)); } else { assert!(!m.value(i)); }
+                    kani::cover!(t.len() == 0); kani::cover!(t.len() > 8);
+                }
+            }
+        }
+    };
+}
+// @unit name=split_trim_mask_3_13 props=C06 kind=bounded bound=grid_offset_3_len_13 fns=split_off_mask,trim_mask,last_set_bit_position timeout=600 mem=4 tier=thorough
+split_trim_mask_unit!(split_trim_mask_3_13, 3, 13);
+// @unit name=split_trim_mask_9_17 props=C06 kind=bounded bound=grid_offset_9_len_17 fns=split_off_mask,trim_mask,last_set_bit_position timeout=600 mem=4 tier=thorough
+split_trim_mask_unit!(split_trim_mask_9_17, 9, 17);
+
+// Contract (C06): mask_to_selectors(mask) and MaskRunIter(mask) denote the same set as the bitmap: the runs are
+// canonical (non-empty, alternating), their total is len(mask), and position p is selected iff mask[p].
+macro_rules! mask_runs_unit {
+    ($name:ident, $off:expr, $len:expr) => {
+        #[kani::proof]
+        #[kani::unwind(12)]
+        fn $name() {
+            let m = mask_of::<2>(kani::any(), $off, $len);
+            let v = mask_to_selectors(&m);
+            let p: usize = kani::any(); kani::assume(p < $len);
+            let (mut start, mut found, mut k) = (0usize, false, 0usize);
+            while k < v.len() {
+                assert!(v[k].row_count > 0 && (k == 0 || v[k - 1].skip != v[k].skip));
+                if p >= start && p < start + v[k].row_count { found = true; assert!(!v[k].skip == m.value(p)); }
+                start += v[k].row_count; k += 1;
+            }
+            assert!(found && start == $len);
+            // the lazy iterator yields the same runs
+            let mut it = MaskRunIter::new(&m); let mut k = 0;
+            while k < v.len() { assert!(it.next() == Some(v[k])); k += 1; }
+            assert!(it.next().is_none());
+            kani::cover!(v.len() == 1); kani::cover!(v.len() >= 5);
+        }
+    };
+}
+// @unit name=mask_to_selectors_2_9 props=C06 kind=bounded bound=grid_offset_2_len_9 fns=mask_to_selectors,MaskRunIter::next tier=thorough timeout=1800 mem=8 confirmed=no_(not_seen_to_finish_under_load)
+mask_runs_unit!(mask_to_selectors_2_9, 2, 9);
+
+/// number of set bits of m strictly below position p
+fn mask_rank(m: &BooleanBuffer, p: usize) -> usize { let mut r = 0; let mut i = 0; while i < p && i < m.len() { if m.value(i) { r += 1; } i += 1; } r }
+
+// Contract (C06): limit_mask(mask, k) keeps exactly the first k selected positions: the result is a prefix of mask
+// (out[p] = mask[p] for p < len(out)), it contains min(k, popcount) set bits and, if popcount > k, nothing after the
+// k-th set bit:  for every p < len(mask): (p < len(out) and out[p]) <=> mask[p] and rank(mask, p) < k.
+// offset_mask(mask, k, popcount) clears exactly the first k selected positions: empty if k >= popcount, otherwise
+// len(out) = len(mask) and out[p] <=> mask[p] and rank(mask, p) >= k.
+macro_rules! limit_offset_mask_unit {
+    ($name:ident, $off:expr, $len:expr) => {
+        #[kani::proof]
+        #[kani::unwind(14)]
+        #[kani::stub(alloc::fmt::format, stub_format)]
+        fn $name() {
+            let m = mask_of::<2>(kani::any(), $off, $len);
+            let k: usize = kani::any();
+            let pop = mask_rank(&m, $len);
+            let p: usize = kani::any(); kani::assume(p < $len);
+            let lim = limit_mask(m.clone(), k);
+            assert!(lim.len() <= $len);
+            assert!((p < lim.len() && lim.value(p)) == (m.value(p) && mask_rank(&m, p) < k));
+            if p < lim.len() { assert!(lim.value(p) == m.value(p)); }
+            let off = offset_mask(m.clone(), k, pop);
+            if k >= pop { assert!(off.len() == 0); } else {
+                assert!(off.len() == $len);
+                assert!(off.value(p) == (m.value(p) && mask_rank(&m, p) >= k));
+            }
+            kani::cover!(k > 0 && k < pop); kani::cover!(k >= pop && pop > 0); kani::cover!(k == 0);
+        }
+    };
+}
+// @unit name=limit_offset_mask_3_10 props=C06 kind=bounded bound=grid_offset_3_len_10 fns=limit_mask,offset_mask tier=thorough timeout=1800 mem=8 confirmed=no_(not_seen_to_finish_under_load)
+limit_offset_mask_unit!(limit_offset_mask_3_10, 3, 10);
